@@ -224,10 +224,16 @@ func getEncoder(t reflect.Type, state *stateEncode) (*encoder, error) {
 			buf := b.Extend(4)
 			binary.BigEndian.PutUint32(buf, uint32(n))
 
+			empty := t.Elem().Size() == 0
 			for i := 0; i < n; i++ {
 				state.encodeType = false
+				before := b.Len()
 				if err := encItem.Encode(value.Index(i), b, state); err != nil {
 					return err
+				}
+				if empty && b.Len() == before {
+					// elements without content write nothing, and there is nothing to tell them apart
+					break
 				}
 			}
 
